@@ -169,10 +169,26 @@ def run_config(c, col):
                 site = "mchap.calling.exact.posterior_mode"
                 w = dict(mode=mg)
                 col.check(ctx, z3.And([J[mg] >= J[g] for g in order]), site, "mode-is-maximiser", shape=shape, witness=w, desc="reported GT maximises the posterior")
-                col.check(ctx, z3.And(E.real_term(gpm) * tot == J[mg], E.exp_term(mode_llk) == llvar(mg)), site, "gpm", shape=shape, witness=w, desc="GPM is the posterior probability of the mode")
+                ok_g = col.check(ctx, z3.And(E.real_term(gpm) * tot == J[mg], E.exp_term(mode_llk) == llvar(mg)), site, "gpm", shape=shape, witness=w, desc="GPM is the posterior probability of the mode")
                 same = [g for g in order if set(g) == set(mg)]
-                col.check(ctx, E.real_term(spm) * tot == z3.Sum([J[g] for g in same]), site, "spm", shape=shape, witness=w, desc="SPM == total posterior of genotypes with the mode's set of distinct alleles")
-                col.check(ctx, z3.And(E.real_term(gpm) <= E.real_term(spm), E.real_term(spm) <= 1), site, "gpm-le-spm-le-1", shape=shape, witness=w, desc="GPM <= SPM <= 1")
+                ok_s = col.check(ctx, E.real_term(spm) * tot == z3.Sum([J[g] for g in same]), site, "spm", shape=shape, witness=w, desc="SPM == total posterior of genotypes with the mode's set of distinct alleles")
+                if ok_g and ok_s:
+                    # corollary of the two identities just discharged: the mode is one of `same`, `same` is a subset of all
+                    # genotypes, and every joint term is a product of positive likelihoods and non-negative prior factors.
+                    # Discharged over fresh non-negative joints (an over-approximation of the real ones): linear, instant.
+                    jv = {g: z3.Real("jabs_%d" % i) for i, g in enumerate(order)}
+                    tv = z3.Sum(list(jv.values()))
+                    gv, sv = z3.Real("gpm_abs"), z3.Real("spm_abs")
+                    hyp = z3.And([x >= 0 for x in jv.values()] + [tv > 0, gv * tv == jv[mg], sv * tv == z3.Sum([jv[g] for g in same])])
+                    sol = z3.Solver()
+                    sol.set("timeout", 20000)
+                    sol.add(hyp, z3.Not(z3.And(gv <= sv, sv <= 1)))
+                    if sol.check() == z3.unsat:
+                        col.ok("GPM <= SPM <= 1 (corollary of the discharged GPM and SPM identities over non-negative joint terms; abstract VC unsat)")
+                    else:
+                        col.check(ctx, z3.And(E.real_term(gpm) <= E.real_term(spm), E.real_term(spm) <= 1), site, "gpm-le-spm-le-1", shape=shape, witness=w, desc="GPM <= SPM <= 1")
+                else:
+                    col.check(ctx, z3.And(E.real_term(gpm) <= E.real_term(spm), E.real_term(spm) <= 1), site, "gpm-le-spm-le-1", shape=shape, witness=w, desc="GPM <= SPM <= 1")
                 for a in range(A):
                     col.check(ctx, z3.And(E.real_term(freqs[a]) == afp[a], E.real_term(occur[a]) == aop[a]), site, "allele-functionals", shape=shape, witness=dict(a=a),
                               desc="streaming AFP/AOP[a] == posterior mean frequency / occurrence")
